@@ -140,10 +140,14 @@ func h07Recipe() CharRecipe {
 func H07() {
 	r := h07Recipe()
 	big := vParam("big", 0)
-	if big == 0 {
+	switch big {
+	case 0:
 		r.Length = vLen("length", 1, vParam("L", 3))
-	} else {
+	case 1:
 		r.Length = []int{1000, 5000}[vChoice("biglength", 2)]
+	default:
+		// lengths at which small powers reach the 32- and 64-bit word sizes
+		r.Length = []int{16, 32, 63, 64, 65}[vChoice("wordsizelength", 5)]
 	}
 	alpha, reqs, excluded := h02Ref0(r)
 	// C07's premise: every required set keeps at least one non-excluded
